@@ -242,6 +242,17 @@ def check_group(g):
                             break
                 bad.append({"what": "translation differs from the standard genetic code", "tags": {"op": "translate", "case": variant},
                             "vectors": g, "expected": want[:5], "observed": first or o})
+        # every sequence on its own, already encoded in the ACGT alphabet (the translator works in another letter order): the protein of ITS
+        # letters, or a refusal - a sequence of one repeated letter (poly-A) is the case whose codes look alike in every order
+        for t, w in zip(texts, want):
+            def pre_encoded():
+                return translate_dna_to_protein(SequenceEntry(["s"], bnp.as_encoded_array([t], bnp.DNAEncoding))).sequence.tolist()
+            o = outcome(pre_encoded)
+            n += 1
+            if o[0] == "ok" and o[1] != [w]:
+                bad.append({"what": "translation of a sequence already encoded in the ACGT alphabet differs from the standard genetic code", "tags": {"op": "translate", "case": "pre-encoded"},
+                            "vectors": g, "expected": [w], "observed": {"dna": t, "got": o[1]}})
+                break
         nt += ["cod|" + t for t in texts if len(t) > 3]
     return {"n": n, "nt": nt, "bad": bad, "traces": len(g)}
 
